@@ -194,6 +194,33 @@ struct Kern {
                         size_t at = plant ? (size_t) (r.u64() % len) : 0;
                         if (plant)
                                 s->data[at] = (uint8_t) (1 + r.below(255));
+                        // structured non-zero content (a quarter of the planted cases): the same value again 64 / 128 bytes further
+                        // on, a whole 64-/128-byte line of one value, or a completely non-zero stretch at the very end of the buffer -
+                        // shapes a kernel's lane merging or loop-exit arithmetic may mishandle
+                        if (plant && (sub & 6) == 6) {
+                                uint8_t v = s->data[at];
+                                switch ((sub >> 3) & 3) {
+                                case 0:
+                                        if (at + 64 < len)
+                                                s->data[at + 64] = v;
+                                        break;
+                                case 1: {
+                                        size_t a0 = at & ~(size_t) 63, n = (sub & 32) ? 128 : 64;
+                                        for (size_t q = a0; q < a0 + n && q < len; q++)
+                                                s->data[q] = v;
+                                        break;
+                                }
+                                case 2: {
+                                        size_t n = std::min<size_t>(len, 64 * (1 + (sub >> 5)) + (size_t) (r.u64() % 64));
+                                        for (size_t q = len - n; q < len; q++)
+                                                s->data[q] = (sub & 32) ? 0xff : (uint8_t) (r.u64() | 1);
+                                        break;
+                                }
+                                default:
+                                        if (at + 128 < len)
+                                                s->data[at + 128] = v;
+                                }
+                        }
                         int got = 0;
                         if (GUARDED(gc, got = isal_zero_detect(s->data, len)))
                                 return fault("isal_zero_detect");
